@@ -84,6 +84,7 @@ class Ctl:
         self.cur_job = None
         self.sig_job = None        # job whose body was running when the signal arrived
         self.swallowed = False     # the task itself caught the signal's exception at its raise point
+        self.unloadable = []       # messages the worker sent that the parent cannot unpickle (exception class names)
 
     def point(self, where):
         self.n += 1
@@ -167,15 +168,32 @@ class Outq:
         self.ctl.point('put')
         # the message really crosses a pipe: it is pickled (outside the tracer: nothing symbolic is inside a message)
         with untraced():
+            blob = None
             try:
-                _pickle.dumps(m)
+                blob = _pickle.dumps(m)
             except ValueError as exc:
                 # under CrossHair repr() may hand out proxy strings that hold solver terms ("ctypes objects containing
                 # pointers cannot be pickled"): an artefact of the tracer, not of the message - any other failure counts
                 if 'ctypes' not in str(exc):
                     raise
+            if blob is not None:
+                # ... and the parent's result handler unpickles it: a message the worker could send but the parent cannot read
+                # never resolves its job
+                try:
+                    _pickle.loads(blob)
+                except Exception as exc:
+                    self.ctl.unloadable.append(type(exc).__name__)
         self.msgs.append(m)
         self.ctl.point('put-done')
+
+
+class NeedsTwo(Exception):
+    """an exception class whose constructor needs more arguments than it hands to Exception.__init__ (its default pickling
+    rebuilds it from .args alone)"""
+
+    def __init__(self, a, b):
+        super().__init__(a)
+        self.b = b
 
 
 class WontPickle(Exception):
@@ -218,6 +236,8 @@ def task(ctl, jid, kind, catch=False):
                 raise SystemExit(3)           # the task itself calls sys.exit(3): no termination signal is involved
             if kind == 5:
                 raise KeyboardInterrupt()
+            if kind == 6:
+                raise NeedsTwo(('needs', jid), 'b')
         except BaseException:
             if not catch:
                 raise
